@@ -301,3 +301,21 @@ PROPS["C05"] = dict(
     assumptions=["git/http loaders are outside the domain", "on-disk symlink semantics covered by the oracle"],
     design_ref="DESIGN.md §5 C05",
 )
+
+PROPS["C13"] = dict(
+    title="YAML streams round-trip through the kio readers/writers; package writes stay inside the package",
+    modules=["Kust.Props.C13"],
+    theorems=["Kust.C13.untilNewline_spec", "Kust.C13.startsSep_spec", "Kust.C13.scan_flatten", "Kust.C13.split_lossless",
+              "Kust.C13.dotdot_stays", "Kust.C13.cleanSegs_base", "Kust.C13.pkg_write_confined", "Kust.C13.pkg_rejects_absolute"],
+    components=["kio.split", "kio.pkgpath"],
+    oracle=True,
+    n_corr={"quick": 3000, "thorough": 40000}, n_oracle={"quick": 600, "thorough": 8000},
+    technique="Lean 4 proof (document splitting is lossless for every byte stream; every path annotation the package writer accepts resolves below the package directory, absolute and climbing spellings are rejected) + Go/Lean correspondence of ByteReader's document splitting and LocalPackageWriter's path validation + round-trip oracle (data vs the YAML library's own stream decoder, comment multiset, byte-identical second trip, no reader annotation left, in-memory FS write set)",
+    level_text="PARTIAL. Theorems: splitting a stream at separator lines and concatenating the pieces gives back the stream, for every stream; "
+               "for every path annotation accepted by the writer the target has the package directory as a path prefix (for all package dirs and all strings), "
+               "absolute paths are rejected. What go-yaml does to one document (data, comments, styles) is third-party and NOT proved: the oracle samples it "
+               "against go-yaml's own multi-document decoder with comments, CRLF, separators with comments and empty documents.",
+    level_note=COMMON_NOTE + "go-yaml parse/emit of a single document is outside the model (oracle only).",
+    assumptions=["go-yaml's per-document round trip is sampled, not proved", "package paths are slash-separated (the in-memory FS)"],
+    design_ref="DESIGN.md §5 C13",
+)
